@@ -31,6 +31,36 @@ fn all_names(maxlen: usize) -> Vec<String> {
     out
 }
 
+fn percent_decode(s: &str) -> String {
+    let b = s.as_bytes();
+    let mut out = Vec::new();
+    let mut i = 0;
+    while i < b.len() {
+        if b[i] == b'%' && i + 2 < b.len() && b[i + 1].is_ascii_hexdigit() && b[i + 2].is_ascii_hexdigit() {
+            let v = u8::from_str_radix(std::str::from_utf8(&b[i + 1..i + 3]).unwrap(), 16).unwrap();
+            out.push(v);
+            i += 3;
+            continue;
+        }
+        out.push(b[i]);
+        i += 1;
+    }
+    String::from_utf8_lossy(&out).to_string()
+}
+
+/// lexical normalisation of `..` and `.` components
+fn normalize(p: &Path) -> std::path::PathBuf {
+    let mut out = std::path::PathBuf::new();
+    for c in p.components() {
+        match c {
+            std::path::Component::ParentDir => { out.pop(); }
+            std::path::Component::CurDir => {}
+            other => out.push(other.as_os_str()),
+        }
+    }
+    out
+}
+
 fn listing(dir: &Path) -> BTreeSet<String> {
     let mut s = BTreeSet::new();
     if let Ok(rd) = std::fs::read_dir(dir) {
@@ -93,9 +123,36 @@ async fn case(pool: &KeyPool, out: &mut Out, class: &str, name: &str, cs: bool, 
     let outside = listing(sbx.path()) != ["cache", "ds"].iter().map(|s| s.to_string()).collect::<BTreeSet<_>>()
         || listing(&sbx.path().join("cache")) != ["md", "tg"].iter().map(|s| s.to_string()).collect::<BTreeSet<_>>()
         || !listing(&tg).is_empty();
+    // the file transport: with the role's file absent under its (encoded) name, nothing else may be read in its place -
+    // in particular not the file the percent-DECODED name would point at
+    let fs_fallback = {
+        use tough::Transport;
+        let t = tempfile::tempdir().unwrap();
+        let inner = t.path().join("base").join("inner");
+        std::fs::create_dir_all(&inner).unwrap();
+        let decoded: String = percent_decode(&editor_file);
+        if decoded != editor_file && !decoded.contains('\0') {
+            // a decoy where the decoded name points (kept inside the temporary directory)
+            let target = inner.join(&decoded);
+            let norm = normalize(&target);
+            if norm.starts_with(t.path()) {
+                if let Some(parent) = norm.parent() { let _ = std::fs::create_dir_all(parent); }
+                let _ = std::fs::write(&norm, b"decoy");
+            }
+        }
+        match url::Url::from_directory_path(&inner).ok().and_then(|b| b.join(&editor_file).ok()) {
+            Some(u) if u.path().starts_with(url::Url::from_directory_path(&inner).unwrap().path()) => {
+                match tough::FilesystemTransport.fetch(u).await {
+                    Ok(mut st) => { use futures::StreamExt; let mut got = false; while let Some(it) = st.next().await { if let Ok(b) = it { if !b.is_empty() { got = true; } } } got }
+                    Err(_) => false,
+                }
+            }
+            _ => false,
+        }
+    };
     let input = json!({"name": name.as_bytes(), "cs": cs, "version": version});
     let imp = json!({"load": obs.obs["res"], "editor": editor_file, "requests": role_requests, "datastore": ds_entries,
-        "cache": cache_entries, "cache_requests": cache_requests, "cache_res": cache_res, "outside": outside});
+        "cache": cache_entries, "cache_requests": cache_requests, "cache_res": cache_res, "outside": outside, "fs_fallback": fs_fallback});
     out.case_nt(class, input, imp, true);
 }
 
